@@ -1,19 +1,19 @@
 SPECIFICATION Spec
 CONSTANTS
   Matching = "identity"
-  MinRows = 1
-  MaxRows = 3
-  MaxOutside = 2
+  MinRows = 2
+  MaxRows = 4
+  MaxOutside = 0
   L1 = {"a", "k", "z"}
   L2 = {"p", "q"}
-  FESeqs <- FE_all
+  FESeqs <- FE_1
   FeatSeqs <- FT_x
   SepSeqs <- SEP_none
   StateSet = {"S1"}
   CenterSet = {FALSE}
   NoInterceptToo = FALSE
-  Callers = {"pred", "interval"}
-  SelMode = "some"
+  Callers = {"interval"}
+  SelMode = "all"
   WithNA = TRUE
   ExtraSet <- EX_none
   Export = TRUE
